@@ -87,7 +87,7 @@ try:
     _part("C18V", _v.SPECS["C13"], profiles=[("growth", 900, 45), ("general", 300, 45), ("copy", 300, 40)], fields=["cap", "len", "res"],
           quick_release=[], partial=[])
     _part("C19V", _v.SPECS["C13"], profiles=[("bounds", 900, 45), ("growth", 300, 45), ("zst", 300, 40)], fields=["res", "cap", "len"],
-          partial=[])
+          partial=[], boundary=True)
     _part("C18A", SPECS["C18"])
     _part("C19A", SPECS["C19"])
     _part("C16A", arena("BumpVerif.Props.C16A", [("panics", 600, 40, "some")], ["res", "cap", "chunks", "it", "evt"],
